@@ -159,9 +159,6 @@ class KShim:
         if r is None:
             raise OSError(errno.EBADF, "Bad file descriptor (virtual)")
         if self.fds[fd][1] == "inotify":
-            if (self.calls["read"] - 1) in self.faults.get("eintr_reads", ()):
-                self.sim.fault_fired("read:EINTR")
-                raise InterruptedError(errno.EINTR, "Interrupted system call (injected)")
             pol = self.faults.get("short_read")
             if pol:
                 size = pol[self.read_idx % len(pol)]
@@ -181,6 +178,14 @@ class KShim:
                             if size >= n:
                                 break
         data = _os.read(r, n)
+        if self.fds[fd][1] == "inotify" and (self.calls["read"] - 1) in self.faults.get("overflow_marks", ()):
+            # the kernel's queue-overflow marker (wd -1, IN_Q_OVERFLOW) behind the records of this read.  Only the marker:
+            # nothing is dropped, so every oracle keeps its full strength - what is exercised is that the marker itself
+            # is skipped and harms nothing
+            import struct
+
+            data += struct.pack("iIII", -1, 0x00004000, 0, 0)
+            self.sim.fault_fired("overflow_marker")
         self.sim.rec("k:read", len(data))
         return data
 
